@@ -1,3 +1,4 @@
+import Ebu.Spec.Flow
 import Ebu.Props.C03
 import Ebu.Proofs.PersistConc
 import Ebu.Spec.Bus
@@ -99,5 +100,13 @@ publishers can be handed the same offset (`Ebu.PersistConc.unlocked_duplicates_o
 theorem appends_serialised : Ebu.Locks.CallbacksOk Ebu.Generated.callbackFacts = true ∧
     ((([0, 1, 0, 1].foldl Ebu.PersistConc.ustepAt { threads := [{ record := 7 }, { record := 8 }] }).log.map (·.1)) = [1, 1]) :=
   ⟨Ebu.Props.C03.facts_callbacks_lock_free, Ebu.PersistConc.unlocked_duplicates_offsets⟩
+
+/-! ### obligations on the control flow of the CURRENT source (`Ebu/Generated/Flow.lean`, regenerated from /repo on every run) -/
+
+/-- OBLIGATION: `persistEvent` is called exactly once per publish, unconditionally, after the before-hooks and before the snapshot is taken -/
+theorem flow_persist_before_snapshot : Ebu.Flow.publishPrelude = true := by decide +kernel
+
+/-- OBLIGATION: `persistEvent`: marshal, then ONE append (in no loop) inside the `storeMu` critical section together with the update of `lastOffset` (only on success) -/
+theorem flow_persist_shape : Ebu.Flow.persistShape = true := by decide +kernel
 
 end Ebu.Props.C09
